@@ -49,3 +49,14 @@ package forwarder
 //@   ensures calls(P) == old(calls(P)) + 1 ==> arg(P, 0, old(calls(P))) != "" && len(arg(P, 1, old(calls(P)))) == 1 && envCarries(bytes(msg.Payload), arg(P, 0, old(calls(P))), arg(P, 1, old(calls(P)))[0]) [forwards-the-enveloped-message-to-its-destination]
 //@   ensures calls(P) == old(calls(P)) + 1 ==> ((result == nil) == (ret(P, 0, old(calls(P))) == nil)) [ack-iff-destination-accepted]
 //@   panics-ensures calls(P) == old(calls(P)) + 1 && panicked(P, old(calls(P))) [only-the-publisher-panics]
+
+//@ func (*Publisher).Publish
+//@   requires p != nil && p.wrappedPublisher != nil
+//@   requires forall i int :: 0 <= i && i < len(messages) ==> messages[i] != nil
+//@   callee P = p.wrappedPublisher.Publish
+//@   ensures calls(P) <= old(calls(P)) + 1 [one-call-for-the-whole-batch]
+//@   ensures result == nil ==> calls(P) == old(calls(P)) + 1 && ret(P, 0, old(calls(P))) == nil [success-only-if-the-forwarder-topic-accepted]
+//@   ensures calls(P) == old(calls(P)) + 1 ==> arg(P, 0, old(calls(P))) == p.config.ForwarderTopic && len(arg(P, 1, old(calls(P)))) == len(messages) && (forall i int :: 0 <= i && i < len(messages) ==> arg(P, 1, old(calls(P)))[i] != nil && envCarries(bytes(arg(P, 1, old(calls(P)))[i].Payload), topic, messages[i])) [every-message-enveloped-for-the-requested-topic-in-order]
+//@   ensures topic == "" && len(messages) > 0 ==> result != nil && calls(P) == old(calls(P)) [empty-destination-refused]
+//@   inv loop 1: len(envelopedMessages) == rangeindex + 1 && calls(P) == old(calls(P)) && (forall i int :: 0 <= i && i <= rangeindex ==> envelopedMessages[i] != nil && envCarries(bytes(envelopedMessages[i].Payload), topic, messages[i])) && (rangeindex >= 0 ==> topic != "") [enveloped-so-far]
+//@   panics-ensures calls(P) == old(calls(P)) + 1 && panicked(P, old(calls(P)))
